@@ -234,14 +234,14 @@ Proof. repeat split; vm_compute; reflexivity. Qed.
 Theorem C17_strto_safe : forall s clears errno, nz s -> exists r, iw_strtoll clears errno (s ++ [0]) = Ok r.
 Proof. exact iw_strtoll_safe. Qed.
 Print Assumptions C17_strto_safe.
-(* full statement, FALSE of the wrappers as they are (fixes/safety-strto-errno.diff):
+(* clears = true is the current code; FALSE of the wrappers before 4f5b819 (clears = false, C17_strto_refuted):
    forall e1 e2 p, iw_strtoll false e1 p = iw_strtoll false e2 p *)
 Theorem C17_strto_depends_only_on_input : forall e1 e2 p, iw_strtoll true e1 p = iw_strtoll true e2 p.
 Proof. exact iw_strtoll_errno_indep. Qed.
 Print Assumptions C17_strto_depends_only_on_input.
-Theorem C17_strto_depends_only_on_input_current : fact_strto_clears_errno = true ->
-  forall e1 e2 p, iw_strtoll_current e1 p = iw_strtoll_current e2 p.
-Proof. exact iw_strtoll_errno_current. Qed.
+(* the tree as it is (4f5b819: errno = 0 before the conversion; the T1 fact is obtained by running iw_strtoll after errno = ERANGE) *)
+Theorem C17_strto_depends_only_on_input_current : forall e1 e2 p, iw_strtoll_current e1 p = iw_strtoll_current e2 p.
+Proof. exact iw_strtoll_current_errno_indep. Qed.
 Print Assumptions C17_strto_depends_only_on_input_current.
 Theorem C17_strto_refuted : exists p, iw_strtoll false 0 p = Ok (WVal 123) /\ iw_strtoll false ERANGE p = Ok WErr.
 Proof. exact iw_strtoll_errno_refuted. Qed.
@@ -273,29 +273,41 @@ Theorem C17_numbuf_holds_int64 : forall v, - 2 ^ 63 <= v < 2 ^ 63 -> Z.abs v < 1
 Proof. exact numbuf_holds_int64. Qed.
 Print Assumptions C17_numbuf_holds_int64.
 
-(* ---- jbn_from_json / jbn_from_js as their callers see them (rc, *node).  strict = texts without any value are refused.
-   full statement, FALSE of the code as it is (fixes/safety-json-rootless.diff; witness: a lone closing bracket):
-   forall js rng b p st, jdoc false js rng b = Ok (JAt p, st) -> j_nodes st <> 0 *)
-Theorem C17_json_doc_has_root : forall js rng b p st, jdoc true js rng b = Ok (JAt p, st) -> j_nodes st <> 0.
-Proof. exact jdoc_has_root. Qed.
+(* ---- jbn_from_json / jbn_from_js as their callers see them (rc, *node).  jdoc_current = the tree as it is (3d4d0bc: a
+   text without any value is a parse error; T1 fact obtained by running jbn_from_json on a lone closing bracket): a success
+   always comes with a node, for EVERY input.  The variant before the fix (strict = false) is refuted below. *)
+Theorem C17_json_doc_has_root : forall js rng b p st, jdoc_current js rng b = Ok (JAt p, st) -> j_nodes st <> 0.
+Proof. exact jdoc_current_has_root. Qed.
 Print Assumptions C17_json_doc_has_root.
+Theorem C17_json_doc_has_root_strict : forall js rng b p st, jdoc true js rng b = Ok (JAt p, st) -> j_nodes st <> 0.
+Proof. exact jdoc_has_root. Qed.
+Print Assumptions C17_json_doc_has_root_strict.
+Example C17_json_doc_has_root_ex : jdoc_current false (fun _ => false) ([93] ++ [0]) = Ok (JErr EJson, mkJ 0 (-1) 0) /\
+  jdoc_current false (fun _ => false) ([91; 49; 93] ++ [0]) = Ok (JAt 3, mkJ 2 1 1).
+Proof. split; vm_compute; reflexivity. Qed.
 Theorem C17_json_doc_total : forall strict js rng s, nz s -> exists out st, jdoc strict js rng (s ++ [0]) = Ok (out, st).
 Proof. exact jdoc_total. Qed.
 Print Assumptions C17_json_doc_total.
+(* the code before 3d4d0bc (strict = false): a lone closing bracket is a success without any node *)
 Theorem C17_json_doc_rootless_refuted : exists s, nz s /\ jdoc false false (fun _ => false) (s ++ [0]) = Ok (JAt 0, mkJ 0 (-1) 0).
 Proof. exact jdoc_rootless_refuted. Qed.
 Print Assumptions C17_json_doc_rootless_refuted.
 
-(* ---- iwu_replace (iwutils.c): terminates for every text when no key is empty (or once empty keys are skipped:
-   fixes/safety-replace-empty-key.diff).  full statement, FALSE of the code as it is:
-   forall data keys, exists r, replace false data keys = Ok r *)
-Theorem C17_replace_terminates : forall skips data keys, keys_nonempty keys \/ skips = true -> exists r, replace skips data keys = Ok r.
-Proof. exact replace_terminates. Qed.
+(* ---- iwu_replace (iwutils.c).  replace_current = the tree as it is (e241384: empty keys are skipped; T1 fact obtained by
+   running the call with an empty key under an alarm): it returns for EVERY text and EVERY list of keys.
+   The variant before the fix (skips = false) returns when no key is empty (_partial) and is refuted for an empty key. *)
+Theorem C17_replace_terminates : forall data keys, exists r, replace_current data keys = Ok r.
+Proof. exact replace_current_terminates. Qed.
 Print Assumptions C17_replace_terminates.
+Theorem C17_replace_terminates_partial : forall skips data keys, keys_nonempty keys \/ skips = true -> exists r, replace skips data keys = Ok r.
+Proof. exact replace_terminates. Qed.
+Print Assumptions C17_replace_terminates_partial.
 Example C17_replace_ex : keys_nonempty [([123; 120; 125], Some [49]); ([97], None)] /\
   replace false [97; 123; 120; 125; 98; 123; 120; 125] [([123; 120; 125], Some [49]); ([97], None)] = Ok [97; 49; 98; 49].
 Proof. split; [repeat constructor; unfold zlen; simpl; lia|vm_compute; reflexivity]. Qed.
-(* an empty key: ptr never advances, whatever the mapper answers *)
+(* the code before e241384 with an empty key: ptr never advances, whatever the mapper answers; the current code skips it *)
+Example C17_replace_empty_key_now : replace_current [97; 98; 99] [([], Some []); ([98], Some [120])] = Ok [97; 120; 99].
+Proof. vm_compute. reflexivity. Qed.
 Theorem C17_replace_empty_key_refuted : forall c data m rest, replace false (c :: data) (([], m) :: rest) = Fuel.
 Proof. exact replace_empty_key_refuted. Qed.
 Print Assumptions C17_replace_empty_key_refuted.
